@@ -129,14 +129,14 @@ def ts_oracle(case, x_before, x_after, r, tag, rep):
     fill = ts_fill(case)
     fillv = (float('nan') if fill is NOFILL else fill)
     if canon_arr(x_after, dt) != canon_arr(x_before, dt):
-        rep.violate('helper-modifies-input', f'{fn}: input array changed by the call', case)
+        bc.violate(rep, 'helper-modifies-input', f'{fn}: input array changed by the call', case)
     if fn in ('diff', 'dlog') and p < 0:
         return 'silent'
     if tag != 'ok':
-        rep.violate(f'{fn}-raises', f'{fn}(x, {p}) raised {tag}', case)
+        bc.violate(rep, f'{fn}-raises', f'{fn}(x, {p}) raised {tag}', case)
         return 'raised'
     if r.shape != x_before.shape:
-        rep.violate(f'{fn}-length', f'{fn}: result shape {r.shape} != input shape {x_before.shape}', case)
+        bc.violate(rep, f'{fn}-length', f'{fn}: result shape {r.shape} != input shape {x_before.shape}', case)
         return 'bad-length'
     with warnings.catch_warnings():
         warnings.simplefilter('ignore')
@@ -155,9 +155,9 @@ def ts_oracle(case, x_before, x_after, r, tag, rep):
     gotc = canon_arr(r, 'f' if r.dtype.kind == 'f' else 'i')
     if wantc != gotc:
         if fn in ('diff', 'dlog') and p == 0:
-            rep.violate('diff-d0', f'{fn}(x, 0) returned {gotc}, the property says x - x = {wantc}', case)
+            bc.violate(rep, 'diff-d0', f'{fn}(x, 0) returned {gotc}, the property says x - x = {wantc}', case)
             return 'known'
-        rep.violate(f'{fn}-wrong', f'{fn}(x, {p}, fill={fillv}) = {gotc}, expected {wantc}', case)
+        bc.violate(rep, f'{fn}-wrong', f'{fn}(x, {p}, fill={fillv}) = {gotc}, expected {wantc}', case)
         return 'wrong'
     return 'holds'
 
@@ -450,16 +450,16 @@ def eval_oracle(case, c, rep, outcome=None):
     before, bbefore = state_of(c), builtins_state()
     tag, got = outcome if outcome is not None else run_eval(c, case['expr'])
     if state_of(c) != before:
-        rep.violate('eval-mutates-container', 'container state changed by eval()', case)
+        bc.violate(rep, 'eval-mutates-container', 'container state changed by eval()', case)
     if builtins_state() != bbefore:
-        rep.violate('eval-mutates-helper-table', 'fsic.functions.builtins changed by eval()', case)
+        bc.violate(rep, 'eval-mutates-helper-table', 'fsic.functions.builtins changed by eval()', case)
     if tag == 'ok' and values_equal(got, want):
         return 'holds', (tag, got)
     key = finding_key(case)
     what = (f'eval({case["expr"]!r}) on a {case["span_kind"]} span ' +
             (f'raised {type(got).__name__}: {got}' if tag == 'exc' else f'= {np.asarray(got).tolist()}') +
             f'; the property says {np.asarray(want).tolist()} (= {case["otext"]})')
-    rep.violate(key or ('eval-raises' if tag == 'exc' else 'eval-value-mismatch'), what, case)
+    bc.violate(rep, key or ('eval-raises' if tag == 'exc' else 'eval-value-mismatch'), what, case)
     return ('known' if key else 'wrong'), (tag, got)
 
 
@@ -583,10 +583,10 @@ def check_errors(ctx, rep):
                 except Exception as e:  # noqa: BLE001
                     ref = 'other:' + bc.exc_class(e)
                 if ref == 'KeyError' and not (tag == 'exc' and isinstance(got, KeyError)):
-                    rep.violate('eval-missing-label', f'eval({expr!r}) on a {kind} span: label indexing raises KeyError, '
+                    bc.violate(rep, 'eval-missing-label', f'eval({expr!r}) on a {kind} span: label indexing raises KeyError, '
                                 f'eval gave {tag}: {got!r}', case)
                 if state_of(c) != before or builtins_state() != bbefore:
-                    rep.violate('eval-mutates-on-error', 'state changed by a failing eval()', case)
+                    bc.violate(rep, 'eval-mutates-on-error', 'state changed by a failing eval()', case)
                 rep.case(('missing', kind, expr), nontrivial=False)
                 rep.dist['eval:missing-label:' + ('KeyError' if tag == 'exc' and isinstance(got, KeyError) else tag)] += 1
                 reqs.append(eval_request({'span_kind': kind, 'expr': expr, 'period_texts': texts + missing}, span, labels))
@@ -599,11 +599,64 @@ def check_errors(ctx, rep):
             before, bbefore = state_of(c), builtins_state()
             tag, got = run_eval(c, expr)
             if not (tag == 'exc' and isinstance(got, AttributeError) and name in str(got)):
-                rep.violate('eval-undefined-name', f'eval({expr!r}): expected AttributeError naming {name!r}, got {tag}: {got!r}', case)
+                bc.violate(rep, 'eval-undefined-name', f'eval({expr!r}): expected AttributeError naming {name!r}, got {tag}: {got!r}', case)
             if state_of(c) != before or builtins_state() != bbefore:
-                rep.violate('eval-mutates-on-error', 'state changed by a failing eval()', case)
+                bc.violate(rep, 'eval-mutates-on-error', 'state changed by a failing eval()', case)
             rep.case(('undefined', kind, expr), nontrivial=False)
             rep.dist['eval:undefined-name'] += 1
+    if not ctx.oracle_only:
+        outs = ctx.drive(reqs)
+        for (case, c, outcome), reply in zip(held, outs):
+            model_vs_impl_eval(case, c, reply, outcome, rep)
+
+
+# ---- pandas partial-string labels (a year in a quarterly PeriodIndex, a month in a daily DatetimeIndex) -------------------
+
+PARTIAL = [
+    # (span kind, n, expression, variable, (start, stop, step) for label indexing or a single label, texts)
+    ('period_Q', 12, 'X[`2001`] * 3', 'X', '2001', '* 3'),
+    ('period_Q', 12, 'X[`2000Q2`:`2001`]', 'X', ('2000Q2', '2001', None), ''),
+    ('period_Q', 12, 'X[`2001`:`2002Q3`:3]', 'X', ('2001', '2002Q3', 3), ''),
+    ('period_Q', 12, 'X[:`2001:2]', 'X', (None, '2001', 2), ''),
+    ('period_Q', 12, 'X[`2001`:]', 'X', ('2001', None, None), ''),
+    ('period_Q', 12, 'X[`2001Q1`:`2001`] + 1', 'X', ('2001Q1', '2001', None), '+ 1'),
+    ('period_Q', 12, 'X[`2000`:`2001`]', 'X', ('2000', '2001', None), ''),
+    ('datetime', 6, 'X[`2000-02`]', 'X', '2000-02', ''),
+    ('datetime', 6, 'X[`2000-01-31`:`2000-02`]', 'X', ('2000-01-31', '2000-02', None), ''),
+    ('datetime', 6, 'X[`2000-01`:`2000-02-02`]', 'X', ('2000-01', '2000-02-02', None), ''),
+]
+PARTIAL_VALUES = [float(i) + 0.5 for i in range(12)]
+
+
+def check_partial(ctx, rep):
+    labels = bc.Labels()
+    reqs, held = [], []
+    for kind, n, expr, var, ref, tail in PARTIAL:
+        span = bc.make_span(kind, n)
+        c = VectorContainer(span)
+        c.add_variable('X', PARTIAL_VALUES[:n], dtype=float)
+        case = {'kind': 'eval-partial', 'span_kind': kind, 'n': n, 'expr': expr}
+        with warnings.catch_warnings():
+            warnings.simplefilter('ignore')
+            try:   # the property: "select exactly the positions that label indexing selects"
+                want = c[var, slice(*ref)] if isinstance(ref, tuple) else c[var, ref]
+                want = eval('w ' + tail, {'w': want}) if tail else want  # noqa: S307
+            except Exception as e:  # noqa: BLE001
+                want = e
+        before, bbefore = state_of(c), builtins_state()
+        tag, got = run_eval(c, expr)
+        if state_of(c) != before or builtins_state() != bbefore:
+            bc.violate(rep, 'eval-mutates-container', 'state changed by eval()', case)
+        if isinstance(want, Exception):
+            rep.dist['eval:partial:reference-raises'] += 1
+        elif not (tag == 'ok' and values_equal(got, want)):
+            bc.violate(rep, 'eval-partial-label', f'eval({expr!r}) on a {kind} span gave {tag}: '
+                       f'{np.asarray(got).tolist() if tag == "ok" else repr(got)}; label indexing selects {np.asarray(want).tolist()}', case)
+        rep.dist['eval:partial'] += 1
+        rep.case(('partial', kind, expr), nontrivial=(tag == 'ok'))
+        texts = [t for t in (ref if isinstance(ref, tuple) else (ref,)) if isinstance(t, str)]
+        reqs.append(eval_request({'span_kind': kind, 'expr': expr, 'period_texts': texts}, span, labels))
+        held.append((case, c, (tag, got)))
     if not ctx.oracle_only:
         outs = ctx.drive(reqs)
         for (case, c, outcome), reply in zip(held, outs):
@@ -664,12 +717,12 @@ def check_ns(ctx, rep):
         if case['builtins'] is None:
             want = 'local' if case['local'] else ('var' if case['var'] else ('helper' if case['helper'] else 'undefined'))
             if who != want:
-                rep.violate('eval-precedence', f'name bound as helper={case["helper"]} variable={case["var"]} '
+                bc.violate(rep, 'eval-precedence', f'name bound as helper={case["helper"]} variable={case["var"]} '
                             f'local={case["local"]}: eval resolved it to {who}, expected {want}', case)
         if changed:
-            rep.violate('eval-mutates-container', 'container changed by eval()', case)
+            bc.violate(rep, 'eval-mutates-container', 'container changed by eval()', case)
         if bchanged:
-            rep.violate('eval-mutates-helper-table', 'fsic.functions.builtins changed by eval()', case)
+            bc.violate(rep, 'eval-mutates-helper-table', 'fsic.functions.builtins changed by eval()', case)
         impl.append(who)
         rep.dist['ns:' + who] += 1
         rep.case(('ns', json.dumps(case, sort_keys=True)), nontrivial=True)
@@ -703,6 +756,7 @@ def run(ctx, rep):
     for chunk in range(0, n_random, 4000):
         check_eval_cases(ctx, rep, [gen_eval_case(rng) for _ in range(min(4000, n_random - chunk))])
     check_errors(ctx, rep)
+    check_partial(ctx, rep)
     check_ns(ctx, rep)
     rep.exhaustive = False
 
@@ -733,12 +787,13 @@ def replay(ctx, rep, case):
         if case['builtins'] is None:
             want = 'local' if case['local'] else ('var' if case['var'] else ('helper' if case['helper'] else 'undefined'))
             if who != want:
-                rep.violate('eval-precedence', f'resolved to {who}, expected {want}', case)
+                bc.violate(rep, 'eval-precedence', f'resolved to {who}, expected {want}', case)
         if bchanged:
-            rep.violate('eval-mutates-helper-table', 'fsic.functions.builtins changed by eval()', case)
+            bc.violate(rep, 'eval-mutates-helper-table', 'fsic.functions.builtins changed by eval()', case)
     else:
         rep2 = type(rep)()
         check_errors(ctx, rep2)
+        check_partial(ctx, rep2)
         for v in rep2.violations:
             if v['case'].get('expr') == case.get('expr') and v['case'].get('span_kind') == case.get('span_kind'):
-                rep.violate(v['key'], v['what'], v['case'])
+                bc.violate(rep, v['key'], v['what'], v['case'])
